@@ -205,8 +205,9 @@ type Selection struct {
 	Directives   []*Directive
 
 	// The parsed flag is used to make sure the args for this Selection are only
-	// parsed once.
-	parsed bool
+	// parsed once. parsedFor is the field they were parsed for.
+	parsed    bool
+	parsedFor *Field
 
 	// UnparsedArgs are the original json map[string]interface{} arguments.
 	// This field is only available able after PrepareQuery has been called.
